@@ -41,6 +41,36 @@ CHECKS = {
                     "files_with_2+_blocks_in_a_zoom_level", "files_with_2+_zoom_levels", "zoom_range_queries"],
         "assumptions": E1_ASSUME,
     },
+    "C03": {
+        "level": "model_checking",
+        "technique": "bounded-exhaustive range enumeration plus explicit enumeration of all query histories up to a depth on one reader instance (real code), each answer compared with a reference",
+        "rule": "exhaustive: files from WL(k) x 6 (items_per_slot, block_size, compression) sets and multi-chromosome core files x all 153 ranges x 7 access paths (plain, cached, reopened, cached+reopened, by-value iterator, values() plain and cached); all query histories of length d over a boundary-focused alphabet on one plain and one caching reader instance; one 5003-block scenario crossing the cache reset. states = distinct answer vectors, transitions = queries applied in histories. non-trivial = >=2 items",
+        "require": ["range_files", "files_with_2+_blocks", "files_with_2+_index_levels", "histories", "cache_reset_scenarios"],
+        "mc_counters": {"states": "history_distinct_answer_vectors", "transitions": "history_transitions", "traces": "histories"},
+        "assumptions": E1_ASSUME + ["zero-length stored values and empty ranges are don't-care for sub-range answers (overlap is undefined for them)"],
+    },
+    "C04": {
+        "level": "model_checking",
+        "technique": "bounded-exhaustive range enumeration plus explicit enumeration of all query histories up to a depth on one reader instance (real code), each answer compared with a must-include / must-exclude reference",
+        "rule": "exhaustive: BL(k) layouts (quick: those where an earlier entry ends after a later one) x (items_per_slot 1..3, block_size 2..3) x all 136 ranges x 4 access paths, multi-chromosome core files, and all query histories of length d on plain and caching readers. Oracle: every entry with positive overlap returned once in stored order, none wholly outside; touching entries don't-care. non-trivial = >=2 entries",
+        "require": ["range_files", "files_with_2+_blocks", "files_with_2+_index_levels", "files_with_block_max_end_not_last", "histories"],
+        "mc_counters": {"states": "history_distinct_answer_vectors", "transitions": "history_transitions", "traces": "histories"},
+        "assumptions": E1_ASSUME,
+    },
+    "C05": {
+        "level": "exploration",
+        "rule": "exhaustive: block counts n=1..N x fan-outs b=2..B x chromosome splits {1,2,3} x {bigWig main+zoom indexes, bigBed main index}; the written tree is walked by the independent decoder (structure, spans, depth = ceil-log) and every boundary query (block starts/ends +-1) through the real reader is compared with a linear scan. non-trivial = tree with >=2 levels",
+        "require": ["index_queries", "zoom_index_queries", "trees_with_partial_nodes", "trees_with_4+_levels",
+                    "main_index_levels_1", "main_index_levels_2", "main_index_levels_3"],
+        "assumptions": E1_ASSUME,
+    },
+    "C09": {
+        "level": "exploration",
+        "rule": "exhaustive over the union of the C01, C02, C07 and C08 case spaces: every byte image produced by the real writers is decoded by the independent decoder (header/offset/count consistency, chromosome B+ tree, every R-tree node and span, contiguous blocks, zlib streams within uncompressBufSize, items per block, decoded records = input, total summary and every zoom record recomputed). non-trivial = >=2 data blocks or a zoom level",
+        "require": ["wig_files", "bed_files", "files_with_2+_index_levels", "files_with_2+_blocks_in_a_zoom_level",
+                    "files_compressed", "files_uncompressed", "zoom_records_decoded"],
+        "assumptions": E1_ASSUME + ["miniz_oxide is the independent zlib implementation"],
+    },
 }
 
 HOOKS = {
